@@ -405,11 +405,13 @@ fn dechunk(mut b: &[u8]) -> Option<Vec<u8>> {
         if size == 0 {
             return Some(out);
         }
-        if b.len() < size + 2 {
+        // `size` comes straight off the wire: `size + 2` must not wrap.
+        let end = size.checked_add(2)?;
+        if b.len() < end {
             return None;
         }
         out.extend_from_slice(&b[..size]);
-        b = &b[size + 2..];
+        b = &b[end..];
     }
 }
 
